@@ -274,8 +274,17 @@ func refusalHelpers(fn *ssa.Function) []*ssa.Function {
 					continue
 				}
 				h := c.Common().StaticCallee()
-				if h == nil || seen[h] || h.Pkg != fn.Pkg || h.Blocks == nil || exported(h) || isFactory(h) ||
-					strings.Contains(h.Name(), "checkRep") || h.Signature.Recv() != nil {
+				if h == nil || seen[h] || h.Pkg != fn.Pkg || h.Blocks == nil || exported(h) || isFactory(h) {
+					continue
+				}
+				// methods of the nodes and messages themselves are not helpers; the
+				// methods of a small value type (a name table, a variable
+				// descriptor: value receiver) are, whatever they are called
+				if recv := h.Signature.Recv(); recv != nil {
+					if _, isPtr := recv.Type().(*types.Pointer); isPtr {
+						continue
+					}
+				} else if strings.Contains(h.Name(), "checkRep") {
 					continue
 				}
 				seen[h] = true
